@@ -17,6 +17,8 @@ import (
 	"errors"
 	"fmt"
 	"io"
+	"os"
+	"os/exec"
 	"strconv"
 	"strings"
 	"time"
@@ -217,6 +219,9 @@ func Canon(err error) string {
 
 // Guard runs f under recover and a deadline.
 func Guard(d time.Duration, f func() error) (err error) {
+	if TooStuck() {
+		return fmt.Errorf("TIMEOUT (skipped: earlier calls never returned)")
+	}
 	done := make(chan error, 1)
 	go func() {
 		defer func() {
@@ -230,6 +235,7 @@ func Guard(d time.Duration, f func() error) (err error) {
 	case e := <-done:
 		return e
 	case <-time.After(d):
+		Stuck++
 		return fmt.Errorf("TIMEOUT after %s", d)
 	}
 }
@@ -421,3 +427,80 @@ func KV(line string) map[string]string {
 	}
 	return m
 }
+
+// ---- robustness: supervisor + in-flight case ----
+
+// Supervise runs the harness body in a child process. The enc package does its work in goroutines
+// it starts itself, so a panic there cannot be recovered in-process: if the child dies, the parent
+// still writes a result file whose violation names the case that was in flight.
+func Supervise(out string, rule string, run func()) {
+	if os.Getenv("VERIF_ENC_CHILD") == "1" {
+		run()
+		return
+	}
+	inflight := out + ".inflight"
+	os.Remove(inflight)
+	cmd := exec.Command(os.Args[0], os.Args[1:]...)
+	cmd.Env = append(os.Environ(), "VERIF_ENC_CHILD=1", "VERIF_ENC_INFLIGHT="+inflight)
+	var tail tailBuf
+	cmd.Stdout = os.Stdout
+	cmd.Stderr = io.MultiWriter(os.Stderr, &tail)
+	err := cmd.Run()
+	defer os.Remove(inflight)
+	if err == nil {
+		if _, serr := os.Stat(out); serr == nil || out == "" {
+			return
+		}
+	}
+	res := lib.NewResult(rule)
+	var c any
+	if b, rerr := os.ReadFile(inflight); rerr == nil {
+		var v any
+		if json.Unmarshal(b, &v) == nil {
+			c = v
+		}
+	}
+	res.Count("crashed", true)
+	res.Violate("crash-in-library-goroutine", fmt.Sprintf("the harness process died while this case was running (%v); last output: %s", err, tail.String()), c)
+	res.Write(out)
+}
+
+type tailBuf struct{ b []byte }
+
+func (t *tailBuf) Write(p []byte) (int, error) {
+	t.b = append(t.b, p...)
+	if len(t.b) > 1500 {
+		t.b = t.b[len(t.b)-1500:]
+	}
+	return len(p), nil
+}
+func (t *tailBuf) String() string { return string(t.b) }
+
+var inflightFile *os.File
+
+// Inflight records the case about to run (read back by the supervisor if the process dies).
+func Inflight(c any) {
+	path := os.Getenv("VERIF_ENC_INFLIGHT")
+	if path == "" {
+		return
+	}
+	if inflightFile == nil {
+		f, err := os.OpenFile(path, os.O_CREATE|os.O_RDWR|os.O_TRUNC, 0o644)
+		if err != nil {
+			return
+		}
+		inflightFile = f
+	}
+	b, err := json.Marshal(c)
+	if err != nil {
+		return
+	}
+	inflightFile.Truncate(0)
+	inflightFile.WriteAt(b, 0)
+}
+
+// Stuck counts calls into the real code that timed out; after a few of them the remaining cases of
+// that kind are skipped (each one leaves a spinning goroutine behind).
+var Stuck int
+
+func TooStuck() bool { return Stuck >= 3 }
